@@ -574,7 +574,12 @@ def grid(tier):
                 add("Convolve1D", dims=d, nh=3, offset=1, axis=ax, hnd=True)
     add("Diagonal", dims=[3, 4], full=True)
     add("Diagonal", dims=[2, 3], full=True, cplx=True)
-    add("Convolve1D", dims=[40], nh=33, offset=16, method=None)  # long-filter (oaconvolve) path
+    # filter longer than the model (the _Convolve1Dlong class): odd/even model and filter lengths, several offsets
+    for n, nh in [(4, 9), (5, 9), (6, 11), (5, 8), (4, 6), (3, 4)]:
+        for off in sorted(set([0, n // 2, n - 1])):
+            add("Convolve1D", dims=[n], nh=nh, offset=off)
+    add("Convolve1D", dims=[4], nh=7, offset=1, cplx=True)
+    add("Convolve1D", dims=[40], nh=33, offset=16, method=None)
     add("Convolve1D", dims=[40], nh=33, offset=3, method="fft")
 
     # derivatives: every kind / order / edge, sizes around the stencil width
